@@ -17,7 +17,8 @@ from .sched import strategies as S
 from .sched.core import DONE
 
 STOP = "STOP_PROCESSING"
-TEMPLATES = ("det_{id}.wav", "ev_{id}_{start:.3f}_{end:.3f}.wav", "d{id:03d}-{duration:.2f}.raw", "x_{start}_{end}_{id}.wav")
+TEMPLATES = ("det_{id}.wav", "ev_{id}_{start:.3f}_{end:.3f}.wav", "d{id:03d}-{duration:.2f}.raw", "x_{start}_{end}_{id}.wav",
+             "r_{id}_{duration}.wav", "{duration}_{id}.raw")
 
 
 def random_pipeline_case(rng, max_windows=40, want_saver=None, want_stop=False, line_mode=False, many_detections=False):
@@ -124,6 +125,8 @@ def run_pipeline(case, data, tmpdir, script_override=None, decisions=None, strat
         for i, (kind, to) in enumerate(zip(case["observers"], case["observer_timeouts"])):
             if kind == "rec":
                 o = H.RecObserver(sched, f"obs{i}", timeout=to)
+            elif kind == "faulty":
+                o = H.FaultyObserver(sched, f"obs{i}", case.get("observer_dies_at", 1), timeout=to)
             elif kind == "print":
                 o = W.PrintWorker("{id} {start} {end} {duration}", "%S", timeout=to)
             elif kind == "regionsaver":
@@ -138,7 +141,17 @@ def run_pipeline(case, data, tmpdir, script_override=None, decisions=None, strat
             o.vf_name = f"obs{i}:{kind}"
             o.vf_kind = kind
             observers.append(o)
-        tw = W.TokenizerWorker(src, observers, **kw)
+        logger = None
+        if case.get("logger"):
+            import logging
+
+            logger = logging.getLogger("vf-pipeline")
+            logger.handlers[:] = [logging.NullHandler()]
+            logger.propagate = False
+            logger.setLevel(logging.INFO)
+        if case.get("fault_at_read") is not None:
+            reader.vf_fault_at = case["fault_at_read"]
+        tw = W.TokenizerWorker(src, observers, logger=logger, **kw)
         tw.vf_name = "tokenizer"
         holder["tw"] = tw
 
@@ -222,6 +235,8 @@ def verdict_problems(res):
         elif kind == "non-termination":
             out.append(("thread-never-terminates", detail))
     for name, exc in s.thread_exceptions:
+        if "injected source fault" in exc or "injected observer fault" in exc:
+            continue  # the harness injected this one on purpose
         out.append(("worker-thread-raised:" + name.split(":")[-1].rstrip("0123456789"), {"thread": name, "exception": exc[:300]}))
     if s.aborted is None:
         not_done = [n for n, st in res.thread_states if st != DONE]
